@@ -183,6 +183,9 @@ def _rest(P, R):
     R.floor("DTYPE.raw sites (k-means moments)", n_dt, 2)
     from ..engines import traps as _traps
     _traps.check(P, R, ['kmeans', 'gmm'], scope='(kmeans:|gmm:GMMMachine\\.initialize_gaussians)')
+    # the hand-over is observed with max_fitting_steps=0 (no EM iteration): the cap of the training loop is honoured for 0 as well
+    from ..engines import loop as _loop20
+    _loop20.analyse(P, R, "gmm:GMMMachine.fit", "max_fitting_steps", "convergence_threshold", ("m_step",))
 
 
 EXPLANATION += ' Also: (DEP.init-exact) in the k-means arm the initial variances and weights are exactly what the fitted machine derives from the training data; (DTYPE.raw) squares of the samples are taken in floating point (D13).'
